@@ -84,6 +84,9 @@ func c02Units(tier string) []string {
 				u = append(u, fmt.Sprintf("bytes#%s#k%d#%d", b.name, k, s))
 			}
 			u = append(u, fmt.Sprintf("edits#%s#k%d", b.name, k), fmt.Sprintf("order#%s#k%d", b.name, k))
+			if k == 1 {
+				u = append(u, fmt.Sprintf("dirrewrite#%s#k%d", b.name, k))
+			}
 		}
 	}
 	return append(u, "transplants")
@@ -388,6 +391,46 @@ func c02Run(c *hx.Ctx, tier, unit string) {
 			x := append([]byte{}, s...)
 			x[off] ^= 0x40
 			c02Judge(c, x, "covered image byte changed, signature kept", certs, false)
+		}
+	case "dirrewrite":
+		// The certificate-table directory entry is not covered by the digest, so an adversary may rewrite
+		// it together with covered bytes. Every combination of: the last j covered bytes in front of the
+		// table changed (j = 1..8) x Size grown by ds x address moved back by da x a bytes of junk appended
+		// (ds, da, a in 0..9). The reference decides each (a table that does not span address..EOF is
+		// ill-formed); the library must not verify what the reference rejects.
+		img := find(parts[1])
+		k, _ := strconv.Atoi(strings.TrimPrefix(parts[2], "k"))
+		s, _, err := c02Sign(img, k)
+		if err != nil {
+			return
+		}
+		im, err := refpe.Parse(s)
+		if err != nil || im.CertSize == 0 {
+			return
+		}
+		certs := c02CertSet(k)[:1]
+		va, sz := int(im.CertOff), int(im.CertSize)
+		for j := 1; j <= 8; j++ {
+			for ds := 0; ds <= 9; ds++ {
+				for da := 0; da <= 9; da++ {
+					for a := 0; a <= 9; a++ {
+						if ds == 0 && da == 0 && a == 0 {
+							continue // plain covered-byte change: the bytes unit
+						}
+						if va-j < int(im.SizeOfHeaders) {
+							continue
+						}
+						x := append([]byte{}, s...)
+						for i := 1; i <= j; i++ {
+							x[va-i] ^= 0xee
+						}
+						binary.LittleEndian.PutUint32(x[im.CertDirOff:], uint32(va-da))
+						binary.LittleEndian.PutUint32(x[im.CertDirOff+4:], uint32(sz+ds))
+						x = append(x, bytes.Repeat([]byte{0x5a}, a)...)
+						c02Judge(c, x, fmt.Sprintf("last %d covered bytes changed, certificate directory size +%d, address -%d, %d bytes appended", j, ds, da, a), certs, false)
+					}
+				}
+			}
 		}
 	case "transplants":
 		type signedImg struct {
